@@ -10,7 +10,7 @@ run_one() {
   git -C /repo worktree add -q --detach $wt HEAD || { echo "$name worktree-failed" ; return; }
   if git -C $wt apply $d/patch.diff; then
     full=$(VERIF_REPO=$wt ./check $id --tier $tier 2>&1 | grep -E "^VIOLATION|^KNOWN-FINDING")
-    res=$(echo "$full" | grep VIOLATION | sed 's#replay=/verif/replays/##' | cut -c1-120 | tr '\n' ' ')
+    res=$(echo "$full" | grep VIOLATION | sed -E 's#replay=/verif/(.work/scratch-)?replays/##' | cut -c1-120 | tr '\n' ' ')
     [ -z "$res" ] && res="SILENT"
     echo "$name $id :: $res"
     python3 - "$name" "$id" "$tier" <<PY >> /verif/.work/seeded_matrix.jsonl
